@@ -73,7 +73,6 @@ import functools
 import itertools
 import os.path
 import urllib.parse
-import urllib.request
 import xml.dom
 
 from . import css, errorhandler, stylesheets
@@ -285,7 +284,9 @@ class Replacer:
 
         path, filename = os.path.split(path)
         combined = os.path.normpath(os.path.join(self.base, path, filename))
-        return urllib.request.pathname2url(combined)
+        # quote like pathname2url but keep escapes which are present already
+        path = urllib.parse.quote(combined.replace(os.sep, '/'), safe='/%')
+        return urllib.parse.urlunsplit(('', '', path, query, fragment))
 
     @staticmethod
     def extract_base(uri):
